@@ -1873,6 +1873,39 @@ fn main() {
     if transitions == 0 {
         run.machinery("vacuous: no transition executed");
     }
+    // C02 / C20 also hold after merges received from other devices:
+    // the sync-world engine evaluates them on every device after every
+    // sync step; its (tagged) failures are merged into this evidence
+    let mut merge_worlds = Value::Null;
+    if (prop == "C02" || prop == "C20") && std::env::var("VKIT_FRAGMENT").is_err() {
+        let frag = wd.path().join("syncx-fragment.json");
+        let syncx = std::env::current_exe().unwrap().with_file_name("syncx");
+        let st = std::process::Command::new(&syncx)
+            .args(["--prop", &prop, "--tier", args.tier.as_str()])
+            .env("VKIT_FRAGMENT", &frag)
+            .env("SYNCX_BYPRODUCT", "1")
+            .env_remove("VKIT_WORKER")
+            .env_remove("VKIT_INPUT")
+            .stdout(std::process::Stdio::null())
+            .status();
+        match st {
+            Ok(s) if s.success() => {
+                let v: Value = serde_json::from_slice(&std::fs::read(&frag).unwrap_or_default()).unwrap_or(json!({}));
+                if let Some(fs) = v["failures"].as_array() {
+                    for f in fs {
+                        run.fail_n(f["sig"].as_str().unwrap(), f["what"].as_str().unwrap(), f["witness"].clone(), f["count"].as_u64().unwrap_or(1));
+                    }
+                }
+                let c = &v["evidence"]["coverage"];
+                transitions += c["sync_calls"].as_u64().unwrap_or(0);
+                merge_worlds = json!({"worlds": c["worlds"], "sync_calls": c["sync_calls"], "bounds": c["bounds"]});
+                if c["worlds"].as_u64().unwrap_or(0) == 0 {
+                    run.machinery("vacuous: syncx by-product explored no world");
+                }
+            }
+            other => run.machinery(format!("syncx fragment failed: {:?}", other)),
+        }
+    }
     run.assume("state abstraction: model contents + per-folder log length; random identifiers are not part of the key");
     run.assume("cryptographic primitives, SQLite and the OS file system are trusted base");
     let mut cov = Map::new();
@@ -1882,6 +1915,7 @@ fn main() {
     cov.insert("samples".into(), json!(samples));
     cov.insert("exhaustive".into(), json!(true));
     cov.insert("profile".into(), json!(p));
+    cov.insert("merge_worlds_(sync_engine_by_product)".into(), merge_worlds);
     cov.insert("configurations".into(), json!(per_cfg));
     cov.insert("operations_by_kind".into(), json!(op_kinds));
     cov.insert("oracle_counters".into(), json!(counters_total));
